@@ -37,12 +37,41 @@ def coenabled_pairs(ck, module, cfg):
     return pairs
 
 
+# shared interpreter state touched from the stages of one pipeline inside one function scope: (name, set-up in the scope,
+# write, read).  No murex variables in the concurrent part unless the variable table is the state under test.
+SHARED = [
+    ('config-scoped', 'config set proc strict-arrays false', 'config set proc strict-types false', 'config get proc strict-arrays -> null'),
+    ('config-scoped-same-key', 'config set proc strict-arrays false', 'config set proc strict-arrays true', 'config get proc strict-arrays -> null'),
+    ('config-global', '', 'config set shell max-suggestions 6', 'config get shell max-suggestions -> null'),
+    ('config-dump', 'config set proc strict-arrays false', 'config set proc strict-types false', 'runtime --config -> null'),
+    ('global-var', 'global sg%d = 0', 'global sg%d = 1', 'out $sg%d -> null'),
+    ('env-var', 'export SE%d=0', 'export SE%d=1', 'out $SE%d -> null'),
+    ('function-table', '', 'function sf%d { out x }', 'runtime --functions -> null'),
+    ('alias-table', '', 'alias sa%d=out x', 'alias -> null'),
+]
+
+
+def stress_programs(cid, k):
+    """-> [(id, name, src)]: function { set-up; unsafe { (write; read) x k } | unsafe { ... } | unsafe { ... } }"""
+    out = []
+    for name, pre, w, r in SHARED:
+        cid += 1
+        def f(t):
+            return t % tuple([cid] * t.count('%d')) if '%d' in t else t
+        stage = 'unsafe {\n\tout go\n' + ('\t%s\n\t%s\n' % (f(w), f(r))) * k + '}'
+        src = 'function stress%d {\n%s\n%s | %s | %s\nout done\n}\nstress%d' % (cid, f(pre), stage, stage, stage, cid)
+        out.append((cid, name, src))
+    return out
+
+
 def run(ck, replay=None):
     quick = ck.tier == 'quick'
     ck.cov['rule'] = ('workloads: (1) the random concurrent pipe drivers of C01/C02 (writers, readers, SetDataType/GetDataType, ForceClose), (2) random '
                       'concurrent create/close/delete/get/dump on named-pipe registries with their real close timers, (3) the program tables of '
                       'RunModes.tla and Pipeline.tla plus structured programs (functions, loops, sub-shells, named pipes, bg, parallel foreach, '
-                      'config and global variables) executed 4 at a time per interpreter process under schedule perturbation - all in a harness '
+                      'config and global variables) and stress programs in which the three stages of one pipeline inside a function read and write the same '
+                      'shared table (scoped / global config, global and environment variables, function and alias tables) a few hundred times, executed 4 '
+                      'at a time per interpreter process under schedule perturbation - all in a harness '
                       'built with -race.  Every distinct race report (keyed by the two access sites) is a finding.  The models contribute the list '
                       'of action pairs that can be enabled concurrently (reported as model_coenabled_pairs).  non-trivial = a workload unit with at '
                       'least two goroutines touching one object; distinct = different units.')
@@ -96,6 +125,10 @@ def run(ck, replay=None):
             cid += 1
             n = t.count('%d')
             jobs.append({'id': cid, 'src': (t % tuple([cid] * n)) if n else t, 'timeout_ms': 60000})
+    for rep in range(2 if quick else 8):
+        for scid, name, src in stress_programs(cid, 120 if quick else 300):
+            jobs.append({'id': scid, 'src': src, 'timeout_ms': 240000})
+            cid = scid
     rng.shuffle(jobs)
     shards = 6
     for s in range(shards):
